@@ -28,8 +28,26 @@ def _arr(xs, dt='int64'):
     return _np.asarray(xs, dtype=dt)
 
 
-def _nfield(xs, dt='int32'):
-    f = _fld.NumericMemField(_S, dt)
+_H5 = {'df': None, 'n': 0, 'pid': None}
+
+
+def _h5_frame():
+    """one HDF5 file (in a BytesIO) per worker process, renewed every 400 fields"""
+    import os, io
+    if _H5['df'] is None or _H5['pid'] != os.getpid() or _H5['n'] > 400:
+        _H5['gen'] = _H5.get('gen', 0) + 1
+        ds = _S.open_dataset(io.BytesIO(), 'w', 'ds%d_%d' % (os.getpid(), _H5['gen']))
+        _H5.update(df=ds.create_dataframe('h'), n=0, pid=os.getpid())
+    return _H5['df']
+
+
+def _nfield(xs, dt='int32', h5=False):
+    if h5:
+        df = _h5_frame()
+        _H5['n'] += 1
+        f = df.create_numeric('f%d' % _H5['n'], dt)
+    else:
+        f = _fld.NumericMemField(_S, dt)
     if xs is not None:
         f.data.write(_arr(xs, dt))
     return f
@@ -85,11 +103,11 @@ class _patched:
             setattr(_ops, n, self.orig[n])
 
 
-def _payload(kind, col, form):
+def _payload(kind, col, form, h5=False):
     """kind 'n' numeric / 'i' indexed string;  form 'a' ndarray / 'f' field"""
     if kind == 'i':
         return _ifield(col)
-    return _arr(col, 'int32') if form == 'a' else _nfield(col, 'int32')
+    return _arr(col, 'int32') if form == 'a' else _nfield(col, 'int32', h5)
 
 
 # ----------------------------------------------------------------------------- run: the real code
@@ -178,19 +196,20 @@ def _run_oml(case, np, ops, S):
     form, mapk = case['form'], case['mapk']
     fa = 'a' if form in ('a', 'as') else 'f'
     kd = case.get('kt', 'int32')
-    L = _arr(case['L'], kd) if fa == 'a' else _nfield(case['L'], kd)
-    R = _arr(case['R'], kd) if fa == 'a' else _nfield(case['R'], kd)
-    srcs = tuple(_payload('n', c, fa) for c in case['srcs'])
+    h5 = bool(case.get('h5'))          # HDF5-backed fields instead of memory fields
+    L = _arr(case['L'], kd) if fa == 'a' else _nfield(case['L'], kd, h5)
+    R = _arr(case['R'], kd) if fa == 'a' else _nfield(case['R'], kd, h5)
+    srcs = tuple(_payload('n', c, fa, h5) for c in case['srcs'])
     sinks = None
     if form == 'as':
         sinks = tuple(np.full(len(case['L']), case.get('fill', 0), dtype=np.int32) for _ in case['srcs'])
     elif form == 'fs':
-        sinks = tuple(_nfield(None, 'int32') for _ in case['srcs'])
+        sinks = tuple(_nfield(None, 'int32', h5) for _ in case['srcs'])
     mp = None
     if mapk == 'a':
         mp = np.zeros(len(case['L']), dtype=np.int64)
     elif mapk == 'f':
-        mp = _nfield(None, 'int64')
+        mp = _nfield(None, 'int64', h5)
     lu, ru = bool(case['lu']), bool(case['ru'])
     with _patched(case.get('cs')):
         if case.get('swap'):
@@ -563,6 +582,8 @@ def features(case, model):
         if len(case['srcs']) > 1: f.append('several-payloads')
         if case.get('fill', 0): f.append('prefilled-sink')
         if case.get('cs') is None and case['form'] == 'fs' and case['mapk'] == 'f': f.append('default-chunksize')
+        if case.get('h5'): f.append('hdf5-backed-fields')
+        f.append('keys:' + case.get('kt', 'int32'))
     if op == 'omi':
         f.append('form:' + case['form'])
         f.append('flags:lu=%d,ru=%d' % (case['lu'], case['ru']))
@@ -682,7 +703,7 @@ def gen(tier, rng):
                     yield {'op': 'kmvold', 'data': data, 'map': [INV64 if x is None else x for x in mp], 'cs': cs,
                            'inv': INV64, 'dst': 'f' if (nm + cs) % 2 else 'a'}
     # ---- Session.ordered_merge_left / ordered_merge_right
-    n3, k3 = (5, 4) if big else (4, 4)
+    n3, k3 = (6, 4) if big else (4, 4)
     seqs3 = list(_nondecr(n3, k3))
     nonstream = [('a', 'n'), ('a', 'a'), ('as', 'n'), ('f', 'n'), ('fs', 'n'), ('f', 'f'), ('fs', 'a')]
     cnt = 0
@@ -697,7 +718,13 @@ def gen(tier, rng):
                 base = {'op': 'oml', 'L': L, 'R': R, 'lu': lu, 'ru': 1, 'srcs': srcs}
                 # streamed form: every chunk size that splits the inputs differently, and the production default
                 for cs in list(range(1, n3 + 2)) + [None]:
-                    yield dict(base, form='fs', mapk='f', cs=cs, swap=(cnt + (cs or 0)) % 2)
+                    yield dict(base, form='fs', mapk='f', cs=cs, swap=(cnt + (cs or 0)) % 2, kt=('int32', 'int64')[cnt % 2])
+                if cnt % (3 if big else 7) == 0:
+                    # the same call on HDF5-backed fields (milliseconds per case: a sample of the pairs)
+                    yield dict(base, form='fs', mapk='f', cs=(cnt % (n3 + 1)) + 1, swap=cnt % 2, h5=1)
+                    yield dict(base, form='fs', mapk='f', cs=None, swap=cnt % 2, h5=1)
+                    yield dict(base, form='fs', mapk='n', cs=None, swap=cnt % 2, h5=1)
+                    yield dict(base, form='f', mapk='n', cs=None, swap=cnt % 2, h5=1)
                 # the other argument forms (3 of 7 per pair, rotating; all 7 over any 3 consecutive pairs)
                 for r in range(3):
                     form, mapk = nonstream[(3 * cnt + r) % 7]
@@ -720,8 +747,9 @@ def gen(tier, rng):
     # ---- Session.ordered_merge_inner
     forms4 = ['a', 'as', 'f', 'fs']
     cnt = 0
-    for L in seqs2:
-        for R in seqs2:
+    seqs4 = list(_nondecr(6, 3)) if big else seqs2
+    for L in seqs4:
+        for R in seqs4:
             for lu in ((0, 1) if _strict(L) else (0,)):
                 for ru in ((0, 1) if _strict(R) else (0,)):
                     cnt += 1
@@ -840,31 +868,42 @@ def warmup():
             pass
 
 
-RULE = ('exhaustive over order-types: every pair of non-decreasing key sequences up to length 4 (thorough: 6 / 5) over 4 '
+RULE = ('exhaustive over order-types: every pair of non-decreasing key sequences up to length 4 (thorough: 6) over 4 '
         'symbols for the six numba kernels and for Session.ordered_merge_left/right in every argument form (ndarray / '
-        'ndarray sinks / field / field sinks / with and without map argument) and, in the streamed form, every chunk size '
-        '1..5 plus the production default; pairs up to length 4 over 3 symbols for ordered_merge_inner x truthful flag '
-        'combinations x argument forms; every pair of key sequences in ANY order up to length 3 (thorough 4) over 3 symbols '
-        'for merge_left / merge_right / merge_inner (numeric + indexed-string payloads, with/without writers) and for '
-        'get_index; every foreign-key index vector up to length 3 (thorough 4) for join; the deprecated *_old streaming '
-        'helpers at every chunk size (correspondence of the as-found code only); cases outside the preconditions '
-        '(unsorted keys, untruthful flags, rejected flag combinations, wrong buffer lengths, pre-filled destination '
-        'arrays) are compared with the model only; plus seeded random longer cases with runs of equal left keys planted '
-        'at chunk ends. Memory-backed fields (no HDF5 file per case). Non-trivial = at least one matched or unmatched key '
-        '/ missing key / invalid index is present.')
+        'ndarray sinks / field / field sinks / with and without map argument; 3 of the 7 in-memory forms per pair, '
+        'rotating) and, in the streamed form, every chunk size 1..5 (thorough 1..7) plus the production default; pairs up '
+        'to length 4 (thorough 6) over 3 symbols for ordered_merge_inner x truthful flag combinations x 2 of 4 argument '
+        'forms (rotating); every pair of key sequences in ANY order up to length 3 (thorough 4) over 3 symbols for '
+        'merge_left / merge_right / merge_inner (numeric + indexed-string payloads incl. empty strings, ndarray/field, '
+        'with/without writers) and for get_index; every foreign-key index vector up to length 3 (thorough 4) for join; '
+        'the deprecated *_old streaming helpers at every chunk size (correspondence of the as-found code only); cases '
+        'outside the preconditions (unsorted keys, untruthful flags, rejected flag combinations, wrong buffer lengths, '
+        'pre-filled destination arrays, empty payload tuple) are compared with the model only; plus seeded random longer '
+        'cases with runs of equal left keys planted at chunk ends. Memory-backed fields (no HDF5 file per case). '
+        'merge_inner is compared up to one consistent permutation of the output rows (pandas does not promise more). '
+        'Non-trivial = at least one matched or unmatched key / missing key / invalid index is present.')
 EXHAUSTIVE = {'quick': True, 'thorough': True}
 TRUSTED = ['numba code generation; numpy fancy indexing / boolean masks; MemoryField write / write_part (modelled as append)',
-           'pandas.merge(how=left|inner) = relational join (rows of the left frame in order, matches in right order; inner: '
-           'some permutation of the matching pairs) — Section hypothesis of the merge_* theorems, exercised here on every '
-           'generated key pair',
-           'Python dict semantics in get_index (modelled as an association list, newest binding first)']
+           'pandas.merge(how=left) = rows of the relational left join in order, pandas.merge(how=inner) = some permutation of '
+           'the matching pairs — explicit premises of the merge_* theorems, exercised here on every generated key pair',
+           'Python dict semantics in get_index (modelled as an association list, newest binding first)',
+           'the chunk size of the streamed form is varied by wrapping the operations-module attributes; the production '
+           'default 2^20 is run on the real code and compared with the model at a chunk size just beyond both inputs '
+           '(equal by the chunking-independence theorems)']
 ASSUMPTIONS = ['ordered_* forms: keys sorted ascending, uniqueness flags truthful, right key unique (the call rejects anything else)',
                'ndarray destination arrays are zero-initialised by the caller',
                'streamed form: no run of equal left keys as long as the chunk size (2^20 in production) — otherwise the documented ValueError',
-               'number of rows < 2^62 (INVALID_INDEX is not a row number)']
+               'fewer than 2^62 rows (INVALID_INDEX is not a row number); payload columns have the length of their key column']
 TECHNIQUE = ('Coq proof (faithful model of the kernels, Session plumbing and — reused from C03/C04 — the streamed generators '
              '= relational join + payload mapping) + exhaustive small-scope differential correspondence against the repository')
-LEVEL_TEXT = ('Theorems in coq/Props/C19.v about the Gallina model coq/Model/SessionMerge.v; the model is tied to the '
-              'repository by exhaustive small-scope differential runs of the real Session methods and kernels.')
+LEVEL_TEXT = ('26 theorems in coq/Props/C19.v (all closed under the global context) about the Gallina model '
+              'coq/Model/SessionMerge.v: the six non-streamed kernels equal the relational left/inner join for all sorted '
+              'inputs; Session.ordered_merge_left/right return left_payload in every in-memory form and in the streamed form '
+              'for every chunk size (both-unique: always; right-unique: or the documented long-run ValueError), all forms '
+              'agree; ordered_merge_inner returns the inner-join payloads for all four flag combinations and forms; '
+              'get_index, join; merge_left/right/inner relative to pandas.merge = relational join; the as-found streamed form '
+              'is refuted (F-C19a/b/c). The model is tied to the repository by exhaustive small-scope differential runs of '
+              'the real Session methods and kernels (~6.5e4 cases per quick run, 2 modes).')
 LEVEL_NOTE = ('Trusted: Coq kernel, extraction, harness, numba/numpy/pandas. pandas.merge is a Section hypothesis. '
-              'Session.ordered_merge_left is modelled as repaired by work/C19/fix-F-C19a.diff and fix-F-C19c.diff.')
+              'Session.ordered_merge_left is modelled as repaired by work/C19/fix-F-C19a.diff and fix-F-C19c.diff; the '
+              'deprecated *_old helpers are modelled as found (defective, no longer called by Session).')
